@@ -215,6 +215,8 @@ def maybe_fault(w, rng, st):
             and not st.get("recovery") and rng.random() < 0.35:
         w.faults_left -= 1
         st["fault"] = {"frac": rng.random(), "kind": w.cfg["fault_kind"], "survive": rng.random()}
+        if w.cfg.get("sweep"):
+            st["fault"]["sweep"] = True
     return st
 
 
